@@ -86,21 +86,23 @@ def judge(ctx, rows, timeout=3000):
     tkeys = sorted(twins)
     tprogs = [program(twins[k]) for k in tkeys]
     touts = common.replay_batch([{"op": "check", "src": p[0]} for p in tprogs], timeout=timeout)
-    ok_ctx, bad_ctx = set(), {}
+    ok_ctx, bad_ctx, unparsable = set(), {}, []
     for k, (src, span), o in zip(tkeys, tprogs, touts):
         ob = o.get("obs", {})
         if ob.get("stage") in ("lex", "parse"):
-            raise ToolError(f"GenHole twin does not parse: {ob.get('errs')}\n{src}")
+            # a composition of contexts that is not a program (a string literal inside an f-string hole ...): not a case
+            unparsable.append(k)
+            continue
         if ob.get("ok"):
             ok_ctx.add(k)
         else:
             bad_ctx[k] = [e.get("msg") for e in ob.get("errs", [])][:2]
-    if not ok_ctx:
-        raise ToolError("GenHole: no context accepted with its well-typed twin")
+    if not ok_ctx or len(unparsable) > len(tkeys) // 5:
+        raise ToolError(f"GenHole: {len(ok_ctx)} contexts accepted with their well-typed twin, {len(unparsable)} of {len(tkeys)} do not parse")
     rows = [r for r in rows if ctx_key(r) in ok_ctx]
     progs = [program(r) for r in rows]
     outs = common.replay_batch([{"op": "check", "src": p[0]} for p in progs], timeout=timeout)
-    st = {"judged": 0, "contexts_ok": len(ok_ctx), "contexts_twin_rejected": len(bad_ctx), "agree": 0,
+    st = {"judged": 0, "contexts_ok": len(ok_ctx), "contexts_twin_rejected": len(bad_ctx), "contexts_not_a_program": len(unparsable), "agree": 0,
           "twin_rejected_samples": [{"ctx": list(k)[1:], "msgs": v} for k, v in list(bad_ctx.items())[:8]]}
     for r, (src, span), o in zip(rows, progs, outs):
         st["judged"] += 1
